@@ -424,13 +424,13 @@ def standalone_ob(v):
             prop._name = v.str("pname", 1)
         elif v.bool("pname.isid"):
             prop._name = prop.id
-        decorate_properties(v, [prop], [odml.Section(name="unused", type="t")], deps=False)
+        decorate_properties(v, [prop], [odml.Section(name="unused", type="t")], deps=False, rich=False)
         compare(v, prop, [prop], with_ids=False)
         return
     # names/types vary without decoration, or fixed names with decorated Properties (a sum, not a product)
     if v.bool("decorate"):
         root, objs, secs, props = build_document(v, "sec", vary_names=False, vary_ids=False, full=False)
-        decorate_properties(v, props, secs)
+        decorate_properties(v, props, secs, rich=False)
     else:
         root, objs, secs, props = build_document(v, "sec", vary_ids=False, full=False)
     compare(v, root, objs, with_ids=False)
